@@ -147,6 +147,9 @@ def run_case(case):
                     rc, so, se = _cli(["x", "../" + A] + (["--verbose"] if case["verbose"] else []), os.path.join(work, "cwdx"), obs)
                     top = os.path.join(work, "cwdx", "src")
                 cells.add("tree|x|%s|%s|%s|rc%s" % ("odir" if case["odir"] else "cwd", "verbose" if case["verbose"] else "-", _name_class(case["arcarg"]), rc))
+                if "Traceback (most recent call last)" in so + se:
+                    viol.append({"key": "x-prints-traceback/%s" % ("verbose" if case["verbose"] else "-"), "what": "py7zr x%s -> exit %s with a traceback: %s" % (
+                        " --verbose" if case["verbose"] else "", rc, (se or so).strip().splitlines()[-1][:200])})
                 if rc != 0:
                     viol.append({"key": "x-fails-on-intact/rc=%s/%s" % (rc, "odir" if case["odir"] else "cwd"), "what": "py7zr x -> exit %s: %s" % (rc, (so + se)[-300:])})
                 else:
